@@ -1114,3 +1114,54 @@ Proof.
   - intros (t & a' & HQ & Hpl & HR). exact (spelled_compiles cfg q t z a' HQ Hpl Hsc HR).
   - intros Hc. destruct (compiles_spelled cfg _ q Hc) as (t & z' & a' & E & HQ & HR). inversion E; subst z'. exists t, a'. split; assumption.
 Qed.
+
+(* a decidable form of [plain], to exhibit instances by computation *)
+Definition digitsb (s : list N) : bool := match s with [] => false | _ => forallb isd s end.
+Definition int_plainb (v : list N) : bool := match v with 45%N :: r => digitsb r | _ => digitsb v end.
+Definition float_plainb (v : list N) : bool :=
+  let v' := match v with 45%N :: r => r | _ => v end in
+  let ip := take_until (fun c => N.eqb c 46) v' in
+  match skipn (length ip) v' with 46%N :: fp => digitsb ip && digitsb fp | _ => false end.
+Definition plain_tokb (x : token) : bool :=
+  match ty x with T_INT => int_plainb (tval x) | T_FLOAT => float_plainb (tval x) | _ => true end.
+Lemma digitsb_spec s : digitsb s = true -> s <> [] /\ forallb isd s = true.
+Proof. destruct s; [discriminate|]. intros H. split; [discriminate | exact H]. Qed.
+Lemma take_until_split stop : forall s, s = take_until stop s ++ skipn (length (take_until stop s)) s.
+Proof. induction s as [|c s IH]; [reflexivity|]. cbn [take_until]. destruct (stop c); [reflexivity|]. cbn [length skipn app]. f_equal. exact IH. Qed.
+Lemma plain_tokb_sound x : plain_tokb x = true -> plain_tok x.
+Proof.
+  unfold plain_tokb, plain_tok. intros H. split; intros E; rewrite E in H.
+  - unfold int_plainb in H. destruct (tval x) as [|c r] eqn:Ev; [discriminate H|].
+    destruct (N.eqb c 45) eqn:E45.
+    + apply N.eqb_eq in E45. subst c. destruct (digitsb_spec r H) as [A B]. exists [45%N], r. repeat split; auto.
+    + assert (Hd : digitsb (c :: r) = true) by (destruct c; try exact H; repeat (destruct p; try exact H); discriminate E45).
+      destruct (digitsb_spec _ Hd) as [A B]. exists [], (c :: r). repeat split; auto.
+  - unfold float_plainb in H.
+    assert (G0 : forall v' sign, tval x = sign ++ v' -> (sign = [] \/ sign = [45%N]) ->
+              match skipn (length (take_until (fun c => N.eqb c 46) v')) v' with 46%N :: fp => digitsb (take_until (fun c => N.eqb c 46) v') && digitsb fp | _ => false end = true ->
+              exists sign0 ip fp, tval x = sign0 ++ ip ++ 46%N :: fp /\ (sign0 = [] \/ sign0 = [45%N]) /\ ip <> [] /\ forallb isd ip = true /\ fp <> [] /\ forallb isd fp = true).
+    { intros v' sign Ev Hs Hm. pose proof (take_until_split (fun c => N.eqb c 46) v') as Sp. set (ip := take_until (fun c => N.eqb c 46) v') in *.
+      destruct (skipn (length ip) v') as [|d fp]; [discriminate Hm|]. destruct (N.eqb d 46) eqn:E46; [|destruct d; try discriminate Hm; repeat (destruct p; try discriminate Hm); discriminate E46].
+      apply N.eqb_eq in E46. subst d. apply andb_true_iff in Hm as [H1 H2]. destruct (digitsb_spec _ H1) as [A1 B1]. destruct (digitsb_spec _ H2) as [A2 B2].
+      exists sign, ip, fp. rewrite Ev, Sp at 1. repeat split; auto. }
+    destruct (tval x) as [|c r] eqn:Ev; [cbn in H; discriminate H|]. destruct (N.eqb c 45) eqn:E45.
+    + apply N.eqb_eq in E45. subst c. apply (G0 r [45%N]); [reflexivity | right; reflexivity | exact H].
+    + apply (G0 (c :: r) []); [reflexivity | left; reflexivity|]. destruct c; try exact H. repeat (destruct p; try exact H). discriminate E45.
+Qed.
+Lemma plainb_sound t : forallb plain_tokb t = true -> plain t.
+Proof. intros H. apply Forall_forall. intros x Hx. apply plain_tokb_sound. rewrite forallb_forall in H. exact (H x Hx). Qed.
+
+(* compiles_spelled, keeping the fact that the tokens are the lexer's *)
+Theorem compiles_spelled_tok cfg text q : m_compile cfg text = Ok q ->
+  exists root t e z a', m_tokenize text = Ok (root :: t ++ [e]) /\ text = 36%N :: z /\ QT cfg q t /\ RunT a0 t z a'.
+Proof.
+  intros Hc. destruct (compile_sound_tokens cfg text q Hc) as (root & t & e & Htok & Hroot & Hwf & HQ).
+  destruct (tokenize_spelled text _ Htok) as (r & ts & y & a & E & _ & -> & HRun). inversion E; subst r ts. clear E.
+  destruct (Run_RunT _ _ _ _ _ HRun) as (z & HT & Ez). rewrite lastT_snoc, (wf_last t e Hwf) in Ez. cbn [post app] in Ez. rewrite app_nil_r in Ez. subst z.
+  apply RunT_app in HT as (z1 & z2 & a1 & -> & H1 & H2).
+  apply RunT_cons_inv in H2 as (k0 & a2 & b & z' & Hs & Hb & Hn & Ht & HR & ->). rewrite (wf_last t e Hwf) in Hs, Ht. cbn [tshape] in Ht.
+  assert (Hk : k0 = GNone) by (unfold astep in Hs; destruct (am a1); cbn in Hs; try discriminate Hs; inversion Hs; reflexivity).
+  subst k0. apply RunT_nil_inv in HR as [-> _].
+  assert (Ez2 : b ++ pre GNone (ty e) ++ tval e ++ post (ty e) ++ [] = []) by (rewrite (Hn eq_refl), Ht, (wf_last t e Hwf); reflexivity).
+  rewrite Ez2, app_nil_r in *. exists root, t, e, z1, a1. split; [exact Htok|]. split; [reflexivity|]. split; assumption.
+Qed.
